@@ -104,11 +104,13 @@ fn derive_and_feed(case: u64, rng: &mut Rng, rep: &mut Report, cfg: &Config, for
         send(rng, rep, &base[..base.len() - 1], "no_final_newline");
     }
     // single-byte edits at every offset
-    let per_offset = if cfg.thorough() { BYTES.len() * 3 } else { 3 };
+    // thorough: every (operation, byte) pair at every offset of small files, 12 sampled pairs otherwise
+    let exhaustive_edits = cfg.thorough() && base.len() <= 500;
+    let per_offset = if exhaustive_edits { BYTES.len() * 3 } else if cfg.thorough() { 12 } else { 3 };
     let mut buf: Vec<u8> = Vec::with_capacity(base.len() + 1);
     for off in 0..base.len() {
         for e in 0..per_offset {
-            let (op, b) = if cfg.thorough() { (e % 3, BYTES[e / 3]) } else { (rng.below(3), *rng.pick(&BYTES)) };
+            let (op, b) = if exhaustive_edits { (e % 3, BYTES[e / 3]) } else { (rng.below(3), *rng.pick(&BYTES)) };
             buf.clear();
             match op {
                 0 => {
@@ -270,7 +272,7 @@ const TEST_FILES: [(&str, Format); 8] = [
 pub fn run(cfg: &Config) -> Report {
     let n_fixed = 1u64;
     let n_files = TEST_FILES.len() as u64;
-    let n_gen = cfg.n(32, 400) as u64;
+    let n_gen = cfg.n(32, 200) as u64;
     run_cases(cfg, n_fixed + n_files + n_gen, |case, rng, rep| {
         if case < n_fixed {
             fixed_inputs(case, rng, rep);
